@@ -85,12 +85,14 @@ Skipped(pagenos, pageno) == pagenos # {} /\ pageno \notin pagenos
 \* `if maxpages and maxpages <= pageno + 1: break`
 MaxReached(maxpages, pageno) == maxpages # 0 /\ maxpages <= pageno + 1
 
-\* the get_pages loop over np produced pages as a pure function (dev: the deviations in force)
-RECURSIVE SelLoop(_, _, _, _, _)
-SelLoop(i, np, pagenos, maxpages, dev) ==
-  IF i >= np THEN <<>>
+\* the get_pages loop over np produced pages as a pure function (dev: the deviations in force): one step per
+\* produced page, folded over the page numbers (FoldLeft is evaluated iteratively - recorded documents are long)
+SelStep(acc, i, pagenos, maxpages, dev) ==
+  IF acc.stop THEN acc
   ELSE IF Skipped(pagenos, i)
-         THEN (IF "ContinueSkipsMax" \notin dev /\ MaxReached(maxpages, i)
-                 THEN <<>> ELSE SelLoop(i + 1, np, pagenos, maxpages, dev))
-         ELSE <<i>> \o (IF MaxReached(maxpages, i) THEN <<>> ELSE SelLoop(i + 1, np, pagenos, maxpages, dev))
+         THEN [acc EXCEPT !.stop = ("ContinueSkipsMax" \notin dev /\ MaxReached(maxpages, i))]
+         ELSE [out |-> Append(acc.out, i), stop |-> MaxReached(maxpages, i)]
+SelLoop(np, pagenos, maxpages, dev) ==
+  SeqX!FoldLeft(LAMBDA acc, i : SelStep(acc, i, pagenos, maxpages, dev),
+                [out |-> <<>>, stop |-> FALSE], [i \in 1..np |-> i - 1]).out
 =============================================================================
